@@ -7,6 +7,8 @@ import OsacaVerif.Driver.C17
 import OsacaVerif.Driver.C20
 import OsacaVerif.Driver.C11
 import OsacaVerif.Driver.C13
+import OsacaVerif.Driver.C16
+import OsacaVerif.Driver.C19
 open OsacaVerif OsacaVerif.Proto
 
 /-- one handler per property module; the first that recognises the op answers -/
@@ -18,7 +20,9 @@ def handlers : List (Req → Option String) := [
   Driver.C17.handle,
   Driver.C20.handle,
   Driver.C11.handle,
-  Driver.C13.handle
+  Driver.C13.handle,
+  Driver.C16.handle,
+  Driver.C19.handle
 ]
 
 def dispatch (r : Req) : String :=
